@@ -124,6 +124,10 @@ def rewrite_fn(item, in_trait_impl, log):
     mut_self = False
     for j in range(kfn, kbody):
         if toks[j].kind == "ident" and toks[j].text == "mut":
+            pv = j - 1
+            while pv > kfn and toks[pv].kind in ("ws", "lcomment", "bcomment", "life"): pv -= 1
+            if toks[pv].kind == "punct" and toks[pv].text == "&":
+                break   # `&mut self`: not a by-value `mut self`
             nx = j + 1
             while toks[nx].kind == "ws": nx += 1
             if toks[nx].kind == "ident" and toks[nx].text == "self":
@@ -466,17 +470,26 @@ def process_unit(path, meta, update_mirror=False):
             wrap = header is not None
             if wrap:
                 new_lines = [header + " {"] + new_lines + ["}"]
-            if mode == "stub":
+            mfid0 = "%s|%s!arm%d(%s)|%s" % (file, macro, arm_idx, bindf.replace(" ", ""), name)
+            if mode == "stub" or mfid0 in STUBIFY:
                 kb = next(k for k, x in enumerate(new_lines) if x.strip() == "{")
                 new_lines = new_lines[:kb] + ["{", "    unimplemented!()", "}"] + (["}"] if wrap else [])
                 new_lines.insert(1 if wrap else 0, "#[verifier::external_body]")
                 log.add("STUB")
             merged, exact = merge(new_lines, ctx, ann)
+            if mfid0 in STUBIFY and mode == "body":
+                merged = keep_contract_only(merged); log.add("FORCED-STUB")
+            mfid = "%s|%s!arm%d(%s)|%s" % (file, macro, arm_idx, bindf.replace(" ", ""), name)
+            emitted = merged
+            if mfid in STRIP and mode == "body":
+                emitted = strip_body_annotations(merged); log.add("HINTS-DROPPED")
+            if mfid in CANARY and mode == "body":
+                emitted = add_canary(merged)
             start_line = len(out) + 2
-            out.append(l); out.extend(merged); out.append("//@@ end")
+            out.append(l); out.extend(emitted); out.append("//@@ end")
             mirror_out.append(l); mirror_out.extend(merged); mirror_out.append("//@@ end")
             meta["functions"].append({
-                "id": "%s|%s!arm%d(%s)|%s" % (file, macro, arm_idx, bindf.replace(" ", ""), name), "unit": unit, "mode": mode, "props": props,
+                "id": mfid, "unit": unit, "mode": mode, "props": props,
                 "file": file, "src_line": item.src[:item.s].count("\n") + 1,
                 "source_sha256": arm_sha, "rewrites": sorted(log), "gen_lines": [start_line, len(out)],
                 "mirror_in_sync": exact, "contract": contract_of(merged),
@@ -507,6 +520,8 @@ def process_unit(path, meta, update_mirror=False):
                 log.add("STUB")
             merged, exact = merge(new_lines, ctx, ann)
             fid = "%s|%s|%s" % (file, norm_header(header) if wrap else "-", name)
+            if fid in STUBIFY and mode == "body":
+                merged = keep_contract_only(merged); log.add("FORCED-STUB")
             emitted = add_canary(merged) if (fid in CANARY and mode == "body") else merged
             if fid in STRIP and mode == "body":
                 emitted = strip_body_annotations(merged); log.add("HINTS-DROPPED")
@@ -601,6 +616,20 @@ def add_canary(merged):
         if l.strip() == "{" and not done:
             out += ["//@+", "    assert(false); // vacuity canary", "//@-"]
             done = True
+    return out
+
+def keep_contract_only(merged):
+    """for a function forced into stub mode: keep the annotation blocks before the body brace (the contract), drop the rest"""
+    out, seen_body, skip = [], False, False
+    for l in merged:
+        t = l.strip()
+        if not seen_body:
+            out.append(l)
+            if t == "{": seen_body = True
+            continue
+        if t == "//@+": skip = True; continue
+        if t == "//@-": skip = False; continue
+        if not skip: out.append(l)
     return out
 
 def contract_of(merged):
